@@ -38,11 +38,19 @@ def admissible(n, ne, spin):
     return na, nb
 
 
+def filling(n, ne, spin):
+    """spin None (the default of get_vector / get_reference_circuit): the first n_e spin-orbitals, i.e. one extra alpha for an odd electron count"""
+    if spin is None:
+        return (ne + 1) // 2, ne // 2
+    return admissible(n, ne, spin)
+
+
 def o1_structures(tier):
     sts = []
     nmax = 8 if tier == "quick" else 12
     for n in range(2, nmax + 1, 2):
         for ne in range(0, n + 1):
+            sts.append({"n": n, "ne": ne, "spin": None})
             for spin in range(-ne, ne + 1):
                 if admissible(n, ne, spin) is not None:
                     sts.append({"n": n, "ne": ne, "spin": spin})
@@ -52,13 +60,11 @@ def o1_structures(tier):
 @contract("C05", "O1.get_vector", targets=[(SM, "get_vector"), (SM, "get_mapped_vector")], level="S", structures=o1_structures)
 def o1(h, st):
     """JW, alternating ordering: v[k] == 1 iff (k even and k/2 < n_alpha) or (k odd and (k-1)/2 < n_beta), with n_alpha = (n_e+spin)/2,
-    n_beta = (n_e-spin)/2 (negative and odd spins included); up_then_down: alphas first. Exhaustive over all admissible (n, n_e, spin) up to the bound"""
+    n_beta = (n_e-spin)/2 (negative and odd spins included; spin None = first n_e spin-orbitals); up_then_down: alphas first. Exhaustive over all admissible (n, n_e, spin) up to the bound"""
     n, ne, spin = st["n"], st["ne"], st["spin"]
-    na, nb = admissible(n, ne, spin)
+    na, nb = filling(n, ne, spin)
     v = h.call(SM, "get_vector", n, ne, "JW", False, spin)
     exp = [1 if ((k % 2 == 0 and k // 2 < na) or (k % 2 == 1 and (k - 1) // 2 < nb)) else 0 for k in range(n)]
-    if spin == 0 and ne % 2 == 0:
-        pass
     h.check("alternating ordering occupations", [int(x) for x in v] == exp, detail=f"{list(v)} vs {exp}")
     v2 = h.call(SM, "get_vector", n, ne, "jw", True, spin)
     exp2 = [1 if k < na else 0 for k in range(n // 2)] + [1 if k < nb else 0 for k in range(n // 2)]
@@ -122,8 +128,8 @@ def o6_structures(tier):
     nmax = 6 if tier == "quick" else 8
     for n in range(2, nmax + 1, 2):
         for ne in range(0, n + 1):
-            for spin in range(-ne, ne + 1):
-                if admissible(n, ne, spin) is None:
+            for spin in [None] + list(range(-ne, ne + 1)):
+                if filling(n, ne, spin) is None:
                     continue
                 for mapping in MAPPINGS:
                     for utd in (False, True):
@@ -135,9 +141,10 @@ def o6_structures(tier):
           targets=[(SM, "get_reference_circuit"), (SM, "get_vector"), (SM, "vector_to_circuit"), (MT, "fermion_to_qubit_mapping")])
 def o6(h, st):
     """the reference circuit prepares a basis state in which the encoded number operator of spin-orbital p has expectation exactly 1 for the first n_alpha
-    alpha and n_beta beta orbitals and 0 for the others; exhaustive over (n, n_e, spin, encoding, ordering) up to the bound"""
+    alpha and n_beta beta orbitals and 0 for the others; exhaustive over (n, n_e, spin, encoding, ordering) up to the bound. spin None (the default)
+    requests the first n_e spin-orbitals; the operator encoder is then given the spin of that determinant"""
     n, ne, spin, mapping, utd = st["n"], st["ne"], st["spin"], st["mapping"], st["utd"]
-    na, nb = admissible(n, ne, spin)
+    na, nb = filling(n, ne, spin)
     c = h.call(SM, "get_reference_circuit", n, ne, mapping, utd, spin)
     nq = n - 2 if mapping == "SCBK" else n
     h.check("width", h.getattr(c, "width") == nq)
@@ -148,7 +155,7 @@ def o6(h, st):
     scbk_utd = True if mapping == "SCBK" else utd
     for p in range(n):
         occ = 1 if ((p % 2 == 0 and p // 2 < na) or (p % 2 == 1 and (p - 1) // 2 < nb)) else 0
-        q = h.call(MT, "fermion_to_qubit_mapping", number_operator(p), mapping, n, ne, scbk_utd, spin)
+        q = h.call(MT, "fermion_to_qubit_mapping", number_operator(p), mapping, n, ne, scbk_utd, spin if spin is not None else na - nb)
         val = diag_expectation(q, bits)
         h.check(f"occupation of spin-orbital {p}", val == occ, detail=f"<n_{p}> = {val}, requested {occ}")
     h.done()
